@@ -303,7 +303,8 @@ def deepcopy_callers(ctx, rep: Report, rule: str):
         for x in walk_own(fi.node):
             if isinstance(x, ast.Attribute) and x.attr == "deepcopy" and ast.unparse(x.value) == "copy":
                 n += 1
-                ok = any(short == k or short.endswith("." + k) for k in DEEPCOPY_CALLERS)
+                from .base import site_allowed
+                ok = site_allowed(ctx, short, lambda s_: any(s_ == k or s_.endswith("." + k) for k in DEEPCOPY_CALLERS))
                 rep.oblige(rule, f"{short}:copy.deepcopy", ok)
                 if not ok:
                     rep.violate(Violation(rule, f"{rule}|{short}", f"{short} refers to copy.deepcopy directly: values copied this way are not covered by the module pass-through (a module held by the value makes the copy fail) and bypass the reference count of _modules_copyable",
